@@ -346,7 +346,8 @@ const UNITS: &[u64] = &[1, 1, 3, 1_000, 999_999_937, 1_000_000_000, 1_000_000_00
 fn gen_mode(rng: &mut Rng, o: &TimeOpts, unit: u64, slots: u8) -> Mode {
     let periodic = rng.pct(o.periodic_pct);
     let keyed = rng.pct(o.keyed_pct);
-    let period = if rng.pct(o.invalid_pct) { 0 } else { unit * rng.range(1, 4) };
+    // 3 % of the periods exceed the range of a `u64` nanosecond count (see `case::HUGE_PERIOD`)
+    let period = if rng.pct(o.invalid_pct) { 0 } else if rng.pct(3) { crate::case::HUGE_PERIOD + unit * rng.range(1, 4) } else { unit * rng.range(1, 4) };
     match (periodic, keyed) {
         (false, false) => Mode::Plain,
         (false, true) => Mode::Keyed(rng.below(slots as u64) as u8),
